@@ -49,7 +49,7 @@ def valid_frame(proto, name, seq, rng, mode="rand"):
 
 class Check(PropertyCheck):
     pid = "C08"
-    gen_files = ["GenCmd", "GenProto"]
+    gen_files = ["GenCmd", "GenProto", "GenEzspFn", "GenProtoFn"]
     model_imports = ["lib.EzspTypes", "gen.GenCmd", "gen.GenProto", "model.EzspCodec", "model.EzspProto", "model.EzspCases"]
     run_expr = "run_c08_case"
     case_type = "(N * option (Z * N) * list N)"
